@@ -8,6 +8,7 @@ import (
 	"sort"
 	"strconv"
 	"testing"
+	"time"
 
 	"github.com/hashicorp/go-argmapper/verifharness/engine"
 	"pgregory.net/rapid"
@@ -76,7 +77,12 @@ func TestReplay(t *testing.T) {
 		c.Reps = 1
 	}
 	c.Reps *= repsFactor()
+	stop := engine.GuardSingleCase(45*time.Second, func(reason string) {
+		fmt.Printf("REPLAY-FAIL property=%s: %s\n", c.Prop, reason)
+		os.Exit(1)
+	})
 	v := eval(c)
+	stop()
 	if v.Fail != "" && v.Known == "" {
 		fmt.Printf("REPLAY-FAIL property=%s: %s\n", c.Prop, v.Fail)
 		t.Fatalf("%s", v.Fail)
@@ -111,7 +117,12 @@ func TestCorpus(t *testing.T) {
 			c.Reps = 1
 		}
 		c.Reps *= repsFactor()
+		stop := engine.GuardSingleCase(45*time.Second, func(reason string) {
+			fmt.Printf("CORPUS-FAIL file=%s property=%s: %s\n", f, c.Prop, reason)
+			os.Exit(1)
+		})
 		v := eval(c)
+		stop()
 		if v.Fail != "" && v.Known == "" {
 			fmt.Printf("CORPUS-FAIL file=%s property=%s: %s\n", f, c.Prop, v.Fail)
 			t.Errorf("%s: %s", f, v.Fail)
